@@ -36,7 +36,7 @@ def _shape_amp(a, rs):
 
 
 LINEAR_FNS = ('afb1d', 'sfb1d', 'dwt_forward', 'dwt_inverse', 'dwt_grad', 'slices', 'nonsep', 'dwt_pr', 'dwt_orth', 'swt_forward',
-              'dtcwt_forward', 'dtcwt_inverse', 'dtcwt_pr', 'dtcwt_grad')
+              'dtcwt_forward', 'dtcwt_inverse', 'dtcwt_pr', 'dtcwt_grad', 'dtcwt_slices')
 
 
 class RState:
